@@ -54,20 +54,26 @@ try:
     out["pinned_suite_with_change"] = "pass" if not o2.strip() else "FAIL: " + o2[-500:]
 finally:
     sh("git -C /repo worktree remove --force %s" % wt)
-# 2. run the checks against /repo with the patch
-assert sh("git -C /repo status --porcelain")[1].strip() == "", "/repo not clean"
-rc, o = sh("git -C /repo apply %s" % patch)
+# 2. run the checks against a scratch worktree with the patch (VERIF_REPO), leaving /repo alone
+wt2 = "/tmp/seedchk/run-" + name
+shutil.rmtree(wt2, ignore_errors=True); sh("git -C /repo worktree prune")
+rc, o = sh("git -C /repo worktree add --detach %s HEAD" % wt2)
+assert rc == 0, o
 res = {}
 try:
+    rc, o = sh("git apply %s" % patch, cwd=wt2)
     if rc != 0:
-        res["error"] = "patch does not apply to /repo: " + o[-300:]
+        res["error"] = "patch does not apply: " + o[-300:]
     else:
+        env["VERIF_REPO"] = wt2
+        env["VERIF_BUILD"] = "/verif/.build-seed-" + name
         for c in checks:
             t = time.time()
             rcc, oc = sh("bin/check %s --tier quick" % c, cwd="/verif", timeout=3600)
             lines = [l for l in oc.splitlines() if l.startswith(("VIOLATION", "OK ", "KNOWN", "MACHINERY")) or l.strip().startswith("what:")]
             res[c] = dict(exit=rcc, wall_s=round(time.time() - t), lines=lines[:6])
 finally:
-    sh("git -C /repo checkout -- . && git -C /repo clean -fdq -- . ':!.pb'")
+    sh("git -C /repo worktree remove --force %s" % wt2)
+    shutil.rmtree("/verif/.build-seed-" + name, ignore_errors=True)
 out["checks"] = res
 print(json.dumps(out, indent=1))
